@@ -220,8 +220,28 @@ def harness_variant(variant):
     return vdir
 
 
+API_ONLY = {}        # cfg -> build log of the full harness, for configurations that only build with feature `api_only`
+API_ONLY_DROPPED = ("blake putblock",)      # component-level ops the api_only harness cannot answer
+
+
 def harness_build(cfg):
+    """build the harness in configuration cfg; when it does not compile (e.g. a `pub` component function the
+    component-level ops call changed its signature) retry with the harness feature `api_only` (public Digest / cipher /
+    vector API only) so that the search for a failing input can go on; such configurations are recorded in API_ONLY
+    and reported by tools/check as a broken correspondence."""
+    ok, binp, out = _harness_build(cfg, False)
+    if not ok and "nostd" not in cfg:
+        ok2, binp2, out2 = _harness_build(cfg, True)
+        if ok2:
+            API_ONLY[cfg] = out
+            return ok2, binp2, out2
+    return ok, binp, out
+
+
+def _harness_build(cfg, api_only):
     feats, prof, extra = HCFGS[cfg][:3]
+    if api_only:
+        feats = list(feats) + ["api_only"]
     variant = HCFGS[cfg][3] if len(HCFGS[cfg]) > 3 else None
     benv = HCFGS[cfg][4] if len(HCFGS[cfg]) > 4 else {}
     if variant:
